@@ -1,7 +1,7 @@
 (* C10 -- statements only; see DESIGN.md section 6 C10.  Theorems are added as the proofs land;
    the witnesses below are evaluated in the kernel on the whole-parser model. *)
 From Coq Require Import String.
-From MdIt Require Import Prims Tables Ruler Tree Render Core Dump Dispatch LineProofs.
+From MdIt Require Import Prims Tables Ruler Tree Render Core Dump Dispatch LineProofs ConfigProofs.
 Local Open Scope string_scope.
 Local Open Scope list_scope.
 (* string append for building inputs *)
@@ -50,12 +50,31 @@ Theorem C10_final_newline : forall fuel m xhtml s, no_sourcepos m -> ends_with_e
   html_of_parse fuel m xhtml (s ++ [10]) = html_of_parse fuel m xhtml s.
 Proof. exact html_final_lf. Qed.
 
+(* the hypothesis holds for EVERY parser assembled from the shipped plugins without the source-position plugin (letter S):
+   a compiled chain contains only rules that were added, and no other plugin adds that rule *)
+Theorem C10_shipped_without_sourcepos : forall cfg nest,
+  forallb (fun c => negb (c =? 83)) cfg = true -> no_sourcepos (build_md cfg nest).
+Proof. exact build_md_no_sourcepos. Qed.
+
+(* hence, spelled out for the three transformations on such parsers *)
+Theorem C10_shipped : forall cfg nest fuel xhtml s, forallb (fun c => negb (c =? 83)) cfg = true ->
+  let m := build_md cfg nest in
+  (cr_free s = true -> html_of_parse fuel m xhtml (to_crlf s) = html_of_parse fuel m xhtml s) /\
+  (cr_free s = true -> html_of_parse fuel m xhtml (to_cr s) = html_of_parse fuel m xhtml s) /\
+  (ends_with_eol s = false -> html_of_parse fuel m xhtml (s ++ [10]) = html_of_parse fuel m xhtml s).
+Proof.
+  intros cfg nest fuel xhtml s Hc m. pose proof (build_md_no_sourcepos cfg nest Hc) as Hn. fold m in Hn.
+  split; [|split]; intros H; [apply html_crlf|apply html_cr|apply html_final_lf]; assumption.
+Qed.
+
 (* the shipped plugin set (CommonMark + strikethrough + raw HTML) has no source-position rule; with
    that rule the statement is about line:column attributes and is NOT proved (checked by the oracle) *)
 Example C10_nonvacuous : no_sourcepos (build_md (bs "CsW") 100) /\ cr_free (bs "a") = true.
 Proof. split; [vm_compute; repeat constructor; discriminate|reflexivity]. Qed.
 
 Print Assumptions C10_parse_depends_on_lines.
+Print Assumptions C10_shipped_without_sourcepos.
+Print Assumptions C10_shipped.
 Print Assumptions C10_crlf.
 Print Assumptions C10_cr.
 Print Assumptions C10_final_newline.
